@@ -37,6 +37,19 @@ def test_write_read_request_round_trip() -> None:
     assert kwargs["request"] == b"payload-bytes"
 
 
+def test_read_request_value_without_python_counterpart_is_a_protocol_error() -> None:
+    """A column value that ``as_py()`` cannot convert is a malformed request, not an escaping OverflowError."""
+    import pytest
+
+    from vgi_rpc.rpc import RpcError
+
+    schema = pa.schema([pa.field("when", pa.timestamp("s"), nullable=False)])
+    body = write_request("bind", schema, {"when": 2**62})
+    with pytest.raises(RpcError, match="has no Python value") as excinfo:
+        read_request(body)
+    assert excinfo.value.error_type == "ProtocolError"
+
+
 def test_write_request_preserves_protocol_version() -> None:
     """A supplied protocol_version is stamped on the request batch metadata."""
     body = write_request("init", _SCHEMA, {"request": b"x"}, protocol_version="2.3")
